@@ -8,6 +8,7 @@ import (
 	"reflect"
 	"strings"
 	"sync"
+	"time"
 
 	corev1 "k8s.io/api/core/v1"
 	"k8s.io/apimachinery/pkg/api/equality"
@@ -24,8 +25,8 @@ import (
 	experimentsv1beta1 "github.com/kubeflow/katib/pkg/apis/controller/experiments/v1beta1"
 	"github.com/kubeflow/katib/pkg/controller.v1beta1/experiment/manifest"
 	experimentutil "github.com/kubeflow/katib/pkg/controller.v1beta1/experiment/util"
-	"github.com/kubeflow/katib/pkg/webhook/v1beta1/experiment/validator"
 	expwebhook "github.com/kubeflow/katib/pkg/webhook/v1beta1/experiment"
+	"github.com/kubeflow/katib/pkg/webhook/v1beta1/experiment/validator"
 	admissionv1 "k8s.io/api/admission/v1"
 	"sigs.k8s.io/controller-runtime/pkg/webhook/admission"
 )
@@ -320,8 +321,18 @@ func init() {
 		case 3:
 			mk(experimentsv1beta1.ExperimentFailed, experimentutil.ExperimentFailedReason)
 		}
+		if rng.Intn(6) == 0 {
+			// the stored Experiment is terminating (deletionTimestamp set, a finalizer pending): updates arriving in that
+			// window are judged like any other
+			dt := metav1.NewTime(time.Date(2024, 1, 2, 0, 0, 0, 0, time.UTC))
+			old.DeletionTimestamp = &dt
+			old.Finalizers = append(old.Finalizers, "foregroundDeletion")
+		}
 		nw := old.DeepCopy()
 		tags := []string{fmt.Sprintf("state=%d", state)}
+		if old.DeletionTimestamp != nil {
+			tags = append(tags, "terminating")
+		}
 		if nas {
 			tags = append(tags, "nas")
 		}
@@ -424,7 +435,7 @@ func init() {
 		op := fmt.Sprintf("C15 %s %s %s 0 %s %s %s %d %d %d %s %s %s", optTok(old.Spec.ParallelTrialCount), optTok(old.Spec.MaxTrialCount), optTok(old.Spec.MaxFailedTrialCount),
 			optTok(nw.Spec.ParallelTrialCount), optTok(nw.Spec.MaxTrialCount), optTok(nw.Spec.MaxFailedTrialCount), newRest,
 			old.Status.Trials, state, hx(string(old.Spec.ResumePolicy)), b01(createOk), hx(path))
-	_ = restartable
+		_ = restartable
 		return Case{Ops: []string{op}, Impl: []string{impl}, Tags: tags, Trivial: mode <= 1}
 	}
 }
